@@ -266,6 +266,24 @@ def run(prog, rep, tier='quick', config='default'):
             else:
                 rep.ok('R11e', 'to_csvtx-carries-every-field|%s' % adt, fn=to_csvtx.name, detail='all %d fields of %s are read' % (len(fl), adt))
 
+    # ------------------------------------------------------------------ R11g: the writer formats values losslessly
+    from props import c06
+    grp = prog.callees_closure([writer])
+    lossy = []
+    for g in grp.values():
+        if g.crate != 'acb':
+            continue
+        for c in g.calls:
+            if c06.LOSSY.search(c.callee) or c06.LOSSY.search(c.decl):
+                lossy.append((g, c))
+    if lossy:
+        g, c = lossy[0]
+        rep.violation('R11g', 'writer-formats-losslessly', where=c.where(), fn=g.name,
+                      detail='the CSV writer reaches the lossy operation %s through %s: a written value can differ from the stored one, so reading the file '
+                             'back does not reproduce the transaction' % (short(c.callee), g.name))
+    else:
+        rep.ok('R11g', 'writer-formats-losslessly', fn=writer.name, detail='no rounding / truncating / float operation is reachable from txs_to_csv_table (%d functions)' % len(grp))
+
     # ------------------------------------------------------------------ R11f
     n = 0
     for fn in prog.product_fns():
